@@ -249,6 +249,27 @@ macro_rules! range_harnesses {
                 cover!(npend == 2, "sealed while two words were held back");
             }
 
+            /// C07 (last clause): seeking a decoder over the finished data to the encoder's FINAL position
+            /// (snapshot taken after the last symbol, also while words are held back) succeeds and leaves
+            /// the decoder possibly exhausted, from every final encoder state.
+            #[cfg_attr(kani, kani::proof)]
+            #[cfg_attr(kani, kani::unwind(12))]
+            #[cfg_attr(kani, kani::solver($solver))]
+            pub fn seek_final_position() {
+                let (st, sit) = any_enc_state(2);
+                assume(st.range().get() != S::MAX);
+                let npend = if let EncoderSituation::Inverted(n, _) = sit { n.get() } else { 0 };
+                let enc = Enc::from_raw_parts(Sink::default(), st, sit);
+                let sink = match enc.into_compressed() { Ok(s) => s, Err(_) => return };
+                let src = Sink { buf: sink.buf, n: sink.n, pos: 0, cap: 8 };
+                let mut dec = match Dec::with_backend(src) { Ok(d) => d, Err(_) => return };
+                match dec.seek((npend, st)) {
+                    Ok(()) => assert!(dec.maybe_exhausted(), "C07: seeking to the final position of the encoder must leave the decoder possibly exhausted"),
+                    Err(()) => assert!(false, "C07: seeking to the final position of the encoder was refused"),
+                }
+                cover!(npend == 2, "final snapshot taken while two words were held back");
+            }
+
             /// C02/C18: an empty message seals to no words.
             #[cfg_attr(kani, kani::proof)]
             #[cfg_attr(kani, kani::unwind(4))]
